@@ -243,7 +243,7 @@ theorem otaIconW_ok (na : Option (List Attr)) (s : Bytes) (st : WSt) :
   unfold otaIconW
   split
   · split
-    · bind_ok (b64DecodeE_safe s) with d _
+    · bind_ok (b64DecodeE_safe (b64TextW s)) with d _
       simp only [Ok_pure]
       intro st' h; cases h; rfl
     · simp
@@ -327,7 +327,7 @@ theorem drmrelContentW_ok (parent : Option Name) (s : Bytes) (st : WSt) :
   unfold drmrelContentW
   split
   · split
-    · bind_ok (b64DecodeE_safe s) with d _
+    · bind_ok (b64DecodeE_safe (b64TextW s)) with d _
       simp only [Ok_pure]; intro st' h; cases h; rfl
     · simp
   · simp
